@@ -2,7 +2,7 @@
 stable matchings, hence a function of the instance alone (relabelling equivariance)."""
 import json
 from harness import gslib, c01
-from harness.common import pmap, lean_query, guard
+from harness.common import pmap, lean_query, guard, safe_judge
 
 LEVEL = "proof"
 ENTRY = "socialchoicekit.deterministic_matching.GaleShapley.scf"
@@ -48,6 +48,7 @@ def rank_of(inst, match, r):
     return 10 ** 9 if v is None else v
 
 
+@safe_judge
 def judge(R, item, oriented, res, lean_ans):
     inst = item["inst"]
     cfg = {"resident_oriented": oriented, "zero_indexed": True}
